@@ -184,7 +184,10 @@ class DTWSettings:
         return settings
 
     def set_max_dist(self, s1, s2):
-        if self.use_pruning:
+        if self.use_pruning and self.adj_max_step == inf and \
+                (self.adj_penalty == 0 or len(s1) == len(s2)):
+            # The Euclidean distance is only an upper bound when its path (the diagonal, then
+            # along the border) is admissible and not penalized.
             # Keep the internal representation: a sqrt/square round trip can make the bound
             # an ulp smaller than the cost of the path it stems from.
             ub = ed.distance(s1, s2, inner_dist=self.inner_dist, use_ndim=self.use_ndim,
